@@ -150,7 +150,7 @@ class NativeCall:
                     nk = lts[0][1]
                     lines.append('  %s raw_%s[%d] = {%s};' % (nk, pn, len(lts), ', '.join(hexlit(v, nk) for v in vals)))
                 lines.append('  %s a_%s; static_assert(sizeof(a_%s) == sizeof(raw_%s), "layout"); std::memcpy(&a_%s, raw_%s, sizeof a_%s);' % (ct, pn, pn, pn, pn, pn, pn))
-                if pt[0] == 'ptr':
+                if pt[0] == 'ptr' and lts[0][0] == 'f':
                     posts.append((pn, len(lts), nk))
             argn.append('a_' + pn)
         rt = f.ret
@@ -195,7 +195,7 @@ def build_and_run(cpp, workdir, name, sanitize=False, timeout=300):
     if r.returncode != 0:
         return None, 'compile failed: ' + r.stderr[-1500:]
     try:
-        r = subprocess.run([exe], capture_output=True, text=True, timeout=60)
+        r = subprocess.run([exe], capture_output=True, text=True, errors='replace', timeout=60)
     except subprocess.TimeoutExpired:
         return None, 'native run timed out'
     finally:
